@@ -76,6 +76,11 @@ func simplifyCurve(curve Path,
 	if len(curve) == 0 {
 		return nil
 	}
+	if len(curve) < 3 {
+		// There is nothing to remove, and the loop below only terminates
+		// for curves that have at least three points.
+		return append(out, curve...)
+	}
 
 	i := 0
 	for {
